@@ -19,10 +19,11 @@ import (
 type c18Objects struct {
 	trees    map[string]*yqlib.ExpressionNode
 	decoders map[string]yqlib.Decoder
+	encoders map[string]yqlib.Encoder
 }
 
 func newC18Objects() *c18Objects {
-	return &c18Objects{trees: map[string]*yqlib.ExpressionNode{}, decoders: map[string]yqlib.Decoder{}}
+	return &c18Objects{trees: map[string]*yqlib.ExpressionNode{}, decoders: map[string]yqlib.Decoder{}, encoders: map[string]yqlib.Encoder{}}
 }
 
 func stepMap(v interface{}) Req {
@@ -110,7 +111,20 @@ func c18Step(o *c18Objects, s Req) (string, error) {
 	if err != nil {
 		return "", err
 	}
-	enc := f.EncoderFactory()
+	// reuse_enc: the same Encoder instance as in earlier evaluations (a new printer every time)
+	var enc yqlib.Encoder
+	if s.Bool("reuse_enc") {
+		enc = o.encoders[outFmt]
+	}
+	if enc == nil {
+		enc = f.EncoderFactory()
+		if enc == nil {
+			return "", fmt.Errorf("no encoder for %s", outFmt)
+		}
+		if s.Bool("reuse_enc") {
+			o.encoders[outFmt] = enc
+		}
+	}
 	out := new(bytes.Buffer)
 	printer := yqlib.NewPrinter(enc, yqlib.NewSinglePrinterWriter(out))
 	input := s.Text("input")
